@@ -19,6 +19,9 @@ mod session;
 mod tasks;
 mod workspace_lock;
 
+#[cfg(rip_verif)]
+pub mod verif_api;
+
 pub use continuities::{
     CompactionAutoResultCheckpointV1, CompactionAutoScheduleV1Request,
     CompactionAutoScheduleV1Response, CompactionAutoV1Request, CompactionAutoV1Response,
